@@ -40,6 +40,13 @@ theorem tophat_dw_is_derivative (ρ : String → ℝ) (s : ℝ) (hs : 1e-3 < exp
   simp only [Function.update_apply, if_true, zpow_ofNat]
   rw [if_pos (by simpa using ht)]; first | (norm_num; done) | (norm_num; ring_nf; done) | expr_finish
 
+/-- C05: at and below its small-argument guard (kR ≤ 10⁻³, where the closed form is 0/0 in floating point) the generated top-hat
+    `dw_dlnkr` is exactly 0 — within 2·10⁻⁷ of the true derivative −(kR)²/5 + O((kR)⁴), which the harness checks on the real code -/
+theorem tophat_dw_small_argument (ρ : String → ℝ) (h : ρ "kr" ≤ 1e-3) : evalR opq ρ Gen.Filters.TopHat_dw_dlnkr = 0 := by
+  simp only [Gen.Filters.TopHat_dw_dlnkr]; expr_unfold; push_cast
+  have hn : ¬ ((1 * 10 ^ (-3:ℤ) : ℝ) < ρ "kr") := by norm_num at h ⊢; linarith
+  rw [if_neg (by simpa using hn)]; norm_num
+
 /-- C05: the generated Gaussian `dw_dlnkr` is the true derivative of the generated Gaussian window w.r.t. ln(kR) -/
 theorem gaussian_dw_is_derivative (ρ : String → ℝ) (s : ℝ) :
     HasDerivAt (fun t => evalR opq (Function.update ρ "kr" (exp t)) Gen.Filters.Gaussian_k_space)
